@@ -172,6 +172,36 @@ func genAttrChain(r *RNG, els []string, fresh string) Op {
 	return o
 }
 
+// overlapping pattern pairs and an element both match
+var overlapPairs = [][3]string{{`^my-`, `-el$`, "my-el"}, {`^x-`, `-el$`, "x-el"}, {`^my-[a-z0-9-]+$`, `^[a-z]+-widget$`, "my-widget"},
+	{`^my-`, `^(?:x|my)-el$`, "my-el"}, {`^x-`, `^[a-z]+-widget$`, "x-widget"}}
+
+// genOverlapPair: the SAME attribute and the SAME style property bound, with different
+// matchers, to two different patterns that both match one element: the rules must
+// accumulate whatever order the pattern table is visited in.
+func genOverlapPair(r *RNG) []Op {
+	pr := overlapPairs[r.Intn(len(overlapPairs))]
+	attr := r.Pick([]string{"title", "align", "width", "lang"})
+	pats := subset(r, valuePatterns, 2, 2)
+	prop := r.Pick([]string{"color", "text-align", "width", "x-prop"})
+	styles := []Op{
+		{K: "AllowStyles", Names: []string{prop}, Enum: []string{"red", "center"}},
+		{K: "AllowStyles", Names: []string{prop}, Re: `^[0-9]+px$`},
+		{K: "AllowStyles", Names: []string{prop}, Fn: "digits"},
+		{K: "AllowStyles", Names: []string{prop}, Re: `^#[0-9a-f]{3}$`},
+		{K: "AllowStyles", Names: []string{prop}, Enum: []string{"blue", "left"}},
+	}
+	pm := r.Perm(len(styles))
+	s1, s2 := styles[pm[0]], styles[pm[1]]
+	s1.Scope, s1.ElRe = "elsre", pr[0]
+	s2.Scope, s2.ElRe = "elsre", pr[1]
+	return []Op{
+		{K: "AllowAttrs", Names: []string{attr}, Re: pats[0], Scope: "elsre", ElRe: pr[0]},
+		{K: "AllowAttrs", Names: []string{attr}, Re: pats[1], Scope: "elsre", ElRe: pr[1]},
+		s1, s2,
+	}
+}
+
 // genRulePile: three to seven rules for ONE attribute in ONE slot (a pattern, the global
 // table or an element), so that the slot's rule list has grown by appends and has spare
 // capacity; plus rules for the same attribute elsewhere.
@@ -293,6 +323,11 @@ func GenRecipe(r *RNG, opt GenOpts) Recipe {
 	}
 	if feature(0.3) {
 		for _, o := range genRulePile(r, myEls) {
+			add(o)
+		}
+	}
+	if opt.WantPatterns && feature(0.5) || feature(0.15) {
+		for _, o := range genOverlapPair(r) {
 			add(o)
 		}
 	}
@@ -784,7 +819,7 @@ func GenInput(r *RNG, v Vocab, maxNodes int) []byte {
 	case 1:
 		return []byte(r.Pick([]string{" ", "\n", "\t \r\n", "   ", "\r", "\f", "\v"}))
 	case 2:
-		return []byte(r.Pick([]string{"\u00a0", "\u2003\u2003", "\u0085", "\u3000 "})) // unicode-only blank: no verdict on "unchanged"
+		return []byte(r.Pick([]string{"\u00a0", "\u2003\u2003", "\u0085", "\u3000 ", "\u00a0\r", "\r\u0085\n", "\u2028\r\n ", "\v\r", "\r\n\u00a0\r"})) // unicode-only blank: no verdict on "unchanged"
 	}
 	for i, n := 0, r.Range(1, maxNodes); i < n; i++ {
 		g.node(0)
@@ -807,6 +842,22 @@ func GenInput(r *RNG, v Vocab, maxNodes int) []byte {
 		b = append(append(append([]byte{}, b[:j]...), b[i:j]...), b[j:]...)
 	}
 	return b
+}
+
+// GenTargetedInput concatenates a handful of probes derived from the recipe's own rules
+// (each element, attribute and style rule with values that hit and miss its matcher - the
+// probe builder of the C17 engine), so that every rule of a generated policy is actually
+// exercised by some input instead of being met by chance.
+func GenTargetedInput(r *RNG, rc Recipe, fresh string, n int) []byte {
+	probes := probesFor(r, rc.Ops, fresh)
+	var sb strings.Builder
+	for i := 0; i < n && len(probes) > 0; i++ {
+		sb.Write(probes[r.Intn(len(probes))])
+		if r.Bool(0.3) {
+			sb.WriteString(r.Pick([]string{" ", "\n", "text", "&amp;"}))
+		}
+	}
+	return []byte(sb.String())
 }
 
 // GenGiantToken produces an input dominated by ONE token of 70 KB - 1.1 MB (text run, attribute
